@@ -1,6 +1,7 @@
 package scen
 
 import (
+	"bytes"
 	"encoding/json"
 	"fmt"
 	"math"
@@ -93,6 +94,25 @@ func expansionSize(n *yaml.Node, memo map[*yaml.Node]float64, onStack map[*yaml.
 	if n.Kind == yaml.AliasNode {
 		size += expansionSize(n.Alias, memo, onStack)
 	}
+	if n.Kind == yaml.MappingNode {
+		// a mapping reached through `<<` merges contributes its keys once per merging mapping, however many
+		// routes lead to it (merging is a union of keys, not a copy per route)
+		merged := map[*yaml.Node]bool{}
+		for i := 0; i+1 < len(n.Content); i += 2 {
+			k, v := n.Content[i], n.Content[i+1]
+			if k.Kind == yaml.ScalarNode && k.Value == "<<" && (k.Tag == "!!merge" || k.Tag == "") {
+				size += mergeSize(v, merged, memo, onStack)
+				continue
+			}
+			size += 1 + expansionSize(v, memo, onStack)
+			if size > 1e12 {
+				break
+			}
+		}
+		delete(onStack, n)
+		memo[n] = size
+		return size
+	}
 	for _, c := range n.Content {
 		size += expansionSize(c, memo, onStack)
 		if size > 1e12 {
@@ -102,6 +122,48 @@ func expansionSize(n *yaml.Node, memo map[*yaml.Node]float64, onStack map[*yaml.
 	delete(onStack, n)
 	memo[n] = size
 	return size
+}
+
+// mergeSize is the work of merging v (an alias, a mapping, or a sequence of those) into a mapping: every
+// distinct mapping on the merge routes counts once.
+func mergeSize(v *yaml.Node, merged map[*yaml.Node]bool, memo map[*yaml.Node]float64, onStack map[*yaml.Node]bool) float64 {
+	if v == nil {
+		return 0
+	}
+	switch v.Kind {
+	case yaml.AliasNode:
+		if merged[v] {
+			return 1 // a merge route that loops: counted once
+		}
+		merged[v] = true
+		return 1 + mergeSize(v.Alias, merged, memo, onStack)
+	case yaml.SequenceNode:
+		if merged[v] {
+			return 1
+		}
+		merged[v] = true
+		size := 1.0
+		for _, c := range v.Content {
+			size += mergeSize(c, merged, memo, onStack)
+		}
+		return size
+	case yaml.MappingNode:
+		if merged[v] {
+			return 1
+		}
+		merged[v] = true
+		size := 1.0
+		for i := 0; i+1 < len(v.Content); i += 2 {
+			k, val := v.Content[i], v.Content[i+1]
+			if k.Kind == yaml.ScalarNode && k.Value == "<<" && (k.Tag == "!!merge" || k.Tag == "") {
+				size += mergeSize(val, merged, memo, onStack)
+				continue
+			}
+			size += 1 + expansionSize(val, memo, onStack)
+		}
+		return size
+	}
+	return expansionSize(v, memo, onStack)
 }
 
 func countWarningLeaves(err error) int {
@@ -159,6 +221,49 @@ func hasNonFinite(v any) bool {
 
 func runC13(c *engine.Ctx) {
 	p := c.Plan
+	// ---- now and then: a very large, perfectly ordinary document delivered without faults. Every entry of
+	// its step sequence must be there (sizes around 4, 8 and 16 MiB; one entry per line keeps a cut invisible
+	// to a YAML reader)
+	if p.Draw(4000, "cfg:huge-input") == 3999 {
+		target := []int{4<<20 + 70000, 8<<20 + 1000, 16<<20 + 5}[p.Draw(3, "cfg:huge-size")]
+		var b bytes.Buffer
+		bare := p.Draw(2, "cfg:huge-bare") == 1
+		if !bare {
+			b.WriteString("env:\n  A: b\nsteps:\n")
+		}
+		n := 0
+		for b.Len() < target {
+			if bare {
+				fmt.Fprintf(&b, "- command: echo step number %d of a long generated pipeline, nothing unusual about it at all ......................................................................................................................................\n", n)
+			} else {
+				fmt.Fprintf(&b, "  - command: echo step number %d of a long generated pipeline, nothing unusual about it at all ....................................................................................................................................\n", n)
+			}
+			n++
+		}
+		c.Ev("huge", b.Len(), n)
+		c.Sample = map[string]any{"base": "huge generated pipeline", "bytes": b.Len(), "entries": n}
+		var pl *pipeline.Pipeline
+		var err error
+		c.Guard("C13.panic", "Parse of a huge document", func() { pl, err = pipeline.Parse(bytes.NewReader(b.Bytes())) })
+		if err != nil && !warning.Is(err) {
+			c.Probe("huge_document_rejected")
+			c.Fingerprint(false, "huge-rejected")
+			return
+		}
+		if pl == nil || len(pl.Steps) != n {
+			got := -1
+			if pl != nil {
+				got = len(pl.Steps)
+			}
+			c.Fail("C13.step-count", "huge document", "a %d-byte document with %d step entries parsed (err=%v) into %d steps", b.Len(), n, err, got)
+		}
+		if cs, ok := pl.Steps[n-1].(*pipeline.CommandStep); !ok || !strings.Contains(cs.Command, fmt.Sprintf("step number %d ", n-1)) {
+			c.Fail("C13.step-count", "huge document", "the last step of a %d-entry document is not its last entry", n)
+		}
+		c.Probe("huge_documents_parsed")
+		c.Fingerprint(true, "huge", target)
+		return
+	}
 	// ---- pristine document and the previous version of the file
 	var pristine []byte
 	var baseName string
